@@ -19,6 +19,7 @@ structure Codec.LawfulOn (C : Codec K) (R : K → Prop) : Prop where
   latIn_latOut : ∀ x, C.latIn (C.latOut x) = x
   rdDeg_fmt : ∀ x, C.rdDeg (C.fmt x) = none       -- a plain number is not a sexagesimal string
   fmt_ne : ∀ x, C.fmt x ≠ ""                      -- the parser's presence test is `s != ""`
+  covRep_neg : ∀ x, C.CovRep x → C.CovRep (C.neg x)   -- the `<cov-mat>` printer treats the sign symmetrically too
 
 /-- the sexagesimal branch (`angles="360"`): `deg2gon (gon2deg x) = x` on the angles the sexagesimal text gives back
     exactly (`Rd`; C18 `C18_deg2gon_gon2deg_string` bounds the distance for all others), and the two factors
@@ -146,16 +147,19 @@ theorem mirrorCov_WF (neg : K → K) (hR : ∀ x, R x → R (neg x)) (mir : Nat 
   obtain ⟨h1, h2, h3, h4, h5⟩ := h
   exact ⟨h1, h2, h3, by simp [mirrorCov, flipWith_length, h4], flipWith_mem neg hR _ _ h5⟩
 
-theorem parse_export_cov_checked (C : Codec K) (hC : C.LawfulOn R) (n : Nat) (c : Cov K) (h : c.WF R n) :
-    parseCovChecked C n (exportCov C.toNumFmt c) = .ok c := by
+theorem parse_export_cov_checked (C : Codec K) (hC : C.LawfulOn R) (n : Nat) (c : Cov K) (h : c.WF C.CovRep n) :
+    parseCovChecked C n (exportCov C.covFmt c) = .ok c := by
   obtain ⟨h1, h2, h3, h4, h5⟩ := h
-  have hcond : ¬ ((exportCov C.toNumFmt c).1 < 1 ∨ (exportCov C.toNumFmt c).2.1 ≥ (exportCov C.toNumFmt c).1 ∨
-      (exportCov C.toNumFmt c).1 ≠ n ∨ (exportCov C.toNumFmt c).2.2.length ≠
-        (exportCov C.toNumFmt c).1 * ((exportCov C.toNumFmt c).2.1 + 1) - (exportCov C.toNumFmt c).2.1 * ((exportCov C.toNumFmt c).2.1 + 1) / 2) := by
+  have hcond : ¬ ((exportCov C.covFmt c).1 < 1 ∨ (exportCov C.covFmt c).2.1 ≥ (exportCov C.covFmt c).1 ∨
+      (exportCov C.covFmt c).1 ≠ n ∨ (exportCov C.covFmt c).2.2.length ≠
+        (exportCov C.covFmt c).1 * ((exportCov C.covFmt c).2.1 + 1) - (exportCov C.covFmt c).2.1 * ((exportCov C.covFmt c).2.1 + 1) / 2) := by
     simp only [exportCov, List.length_map]
     omega
   unfold parseCovChecked
-  rw [if_neg hcond, parse_export_cov C.toNumFmt hC.num c h5]
+  rw [if_neg hcond]
+  have hp : parseCov C.toNumFmt (exportCov C.covFmt c) = some c :=
+    parse_export_cov C.covFmt ⟨fun x hx => hx, hC.num.isZero_iff⟩ c h5
+  rw [hp]
 
 /-! ## scaling of the rows of angular observations (sexagesimal seconds) -/
 
@@ -215,19 +219,19 @@ theorem flagOf_false (l : List Bool) (h : ∀ b ∈ l, b = false) (i : Nat) : fl
 /-- the cov-mat of a `<coordinates>` / `<vectors>` cluster as written: the internal matrix mirrored back; no angular rows -/
 theorem exportCovCall_always (C : Codec K) (ys degrees : Bool) (mir : Nat → Bool) (c : Cov K) (call : Bool × Bool)
     (hcall : call = (true, true)) :
-    exportCovCall C call ys degrees mir (fun _ => false) c = some (exportCov C.toNumFmt (if ys then mirrorCov C.neg mir c else c)) := by
+    exportCovCall C call ys degrees mir (fun _ => false) c = some (exportCov C.covFmt (if ys then mirrorCov C.neg mir c else c)) := by
   subst hcall
   cases ys <;> cases degrees <;> simp [exportCovCall, covMirrors, scaleCov_false]
 
 /-- the cov-mat of an `<obs>` cluster as written (band > 0; the observation list is passed) -/
 theorem exportCovCall_obs (C : Codec K) (ys gons : Bool) (ang : Nat → Bool) (c : Cov K) (hb : c.band ≠ 0) :
-    exportCovCall C covCall_StandPoint ys (!gons) (fun _ => false) ang c = some (exportCov C.toNumFmt (covOut C gons ang c)) := by
+    exportCovCall C covCall_StandPoint ys (!gons) (fun _ => false) ang c = some (exportCov C.covFmt (covOut C gons ang c)) := by
   have : (c.band == 0) = false := by simpa using hb
   cases ys <;> cases gons <;> simp [exportCovCall, covCall_StandPoint, covScalesSeconds, covOut, this, mirrorCov_false]
 
 /-- the cov-mat of a `<height-differences>` cluster as written (band > 0; no list: neither mirrored nor scaled) -/
 theorem exportCovCall_hdiffs (C : Codec K) (ys degrees : Bool) (c : Cov K) (hb : c.band ≠ 0) :
-    exportCovCall C covCall_HeightDifferences ys degrees (fun _ => false) (fun _ => false) c = some (exportCov C.toNumFmt c) := by
+    exportCovCall C covCall_HeightDifferences ys degrees (fun _ => false) (fun _ => false) c = some (exportCov C.covFmt c) := by
   have : (c.band == 0) = false := by simpa using hb
   cases ys <;> cases degrees <;> simp [exportCovCall, covCall_HeightDifferences, this]
 
@@ -526,10 +530,10 @@ theorem parse_export_cluster' {Rd : K → Prop} (C : Codec K) (hC : C.LawfulOn R
       exact agrees_mirror C ys q0 c (hall q0 hq0 hqe)
     obtain ⟨pp', hpts⟩ := parse_export_cpoints C hC ys (ps0.map (mirrorIf C ys)) pts h1 hag pp
     refine ⟨pp', ?_⟩
-    have hcw : (if ys then mirrorCov C.neg (mirOf (coordFlags pts)) cov else cov).WF R (coordFlags pts).length := by
+    have hcw : (if ys then mirrorCov C.neg (mirOf (coordFlags pts)) cov else cov).WF C.CovRep (coordFlags pts).length := by
       cases ys
       · exact h2
-      · exact mirrorCov_WF _ hC.R_neg _ _ _ h2
+      · exact mirrorCov_WF _ hC.covRep_neg _ _ _ h2
     have hmir : mirrorClusterIf C ys (.coords ext pts cov) =
         .coords ext (pts.map (mirrorCPointIf C ys)) (if ys then mirrorCov C.neg (mirOf (coordFlags pts)) cov else cov) := by
       cases ys <;> simp [mirrorClusterIf, mirrorCluster, mirrorCPointIf_true, mirrorCPointIf_false]
@@ -541,10 +545,10 @@ theorem parse_export_cluster' {Rd : K → Prop} (C : Codec K) (hC : C.LawfulOn R
     refine ⟨pp, ?_⟩
     have hm := mapM_ok' (parseVec C) (exportVec C ys) (mirrorVecIf C ys) vecs
       (fun v hv => parse_export_vec C hC ys v (h1 v hv))
-    have hcw : (if ys then mirrorCov C.neg (mirOf (vecFlags vecs)) cov else cov).WF R (vecFlags vecs).length := by
+    have hcw : (if ys then mirrorCov C.neg (mirOf (vecFlags vecs)) cov else cov).WF C.CovRep (vecFlags vecs).length := by
       cases ys
       · exact h2
-      · exact mirrorCov_WF _ hC.R_neg _ _ _ h2
+      · exact mirrorCov_WF _ hC.covRep_neg _ _ _ h2
     have hmir : mirrorClusterIf C ys (.vectors vecs cov) =
         .vectors (vecs.map (mirrorVecIf C ys)) (if ys then mirrorCov C.neg (mirOf (vecFlags vecs)) cov else cov) := by
       cases ys <;> simp [mirrorClusterIf, mirrorCluster, mirrorVecIf_true, mirrorVecIf_false]
